@@ -394,6 +394,10 @@ Proof.
   cbn [s_rewrite s_write s_share]. repeat split; apply finter_self_eq; assumption.
 Qed.
 
+(* no in-place container update of any in-place method touches a field that some operation hands on to its result *)
+Theorem inplace_writes_avoid_shared : inplace_ok Chain = true /\ inplace_ok Tree = true.
+Proof. split; vm_compute; reflexivity. Qed.
+
 (* what gen_ok means for one generated row of an operand of a covered operation *)
 Theorem gen_ok_operand_sound w o fn v p r : gen_ok w o = true -> In (fn, v, p, Operand) (op_rows w o) ->
   find_row (fn, v, p, Operand) = Some r ->
